@@ -255,6 +255,18 @@ pub fn fuzz_corpus_cases(target: &str) -> Vec<Value> {
         };
         files.sort();
         for f in files {
+            // a `.pack` file holds one hex-encoded input per line (the distilled corpus of a campaign)
+            if f.extension().map(|e| e == "pack").unwrap_or(false) {
+                if let Ok(text) = std::fs::read_to_string(&f) {
+                    for (i, line) in text.lines().enumerate() {
+                        let line = line.trim();
+                        if !line.is_empty() {
+                            out.push(json!({"target": target, "file": format!("{}:{}", f.file_name().map(|n| n.to_string_lossy().to_string()).unwrap_or_default(), i + 1), "hex": line}));
+                        }
+                    }
+                }
+                continue;
+            }
             if let Ok(bytes) = std::fs::read(&f) {
                 out.push(json!({"target": target, "file": f.file_name().map(|n| n.to_string_lossy().to_string()).unwrap_or_default(), "hex": hex_encode(&bytes)}));
             }
@@ -268,7 +280,10 @@ pub fn check_fuzz_case(case: &Value, obs: &mut Obs) -> Result<(), String> {
     let r = match case["target"].as_str().unwrap_or("") {
         "fz_total" => crate::fuzzbody::total(&bytes),
         "fz_diff" => crate::fuzzbody::diff(&bytes),
-        other => return Err(format!("oracle_broken: unknown fuzz target {}", other)),
+        other => match crate::fuzzbody::family_of(other) {
+            Some(f) => crate::fuzzbody::family(f, &bytes),
+            None => return Err(format!("oracle_broken: unknown fuzz target {}", other)),
+        },
     };
     obs.evals += 1;
     match r {
